@@ -11,7 +11,7 @@
 //!            | ["connect", cid, dst, port] | ["connect_t", cid, dst, port, timeout_ms]
 //!              dst = {"h": i} (ip of host i) | {"name": i} (by host name) | "loop" | "none"
 //!            | ["poll", cid] | ["cancel", cid]
-//!            | ["accept", lid, sid] | ["drop_listener", lid]
+//!            | ["accept", lid, sid] | ["accept_bg", lid, sid] (a task really awaits accept) | ["drop_listener", lid]
 //!            | ["try_write"|"write", sid, [bytes]] | ["read"|"peek", sid, n] | ["shutdown", sid]
 //!            | ["split", sid] | ["reunite", sid] | ["drop"|"drop_r"|"drop_w", sid]
 //!            | ["addrs", sid] | ["count"] | ["count_on", h]
@@ -92,9 +92,15 @@ fn nobody_ip(v6: bool) -> IpAddr {
 }
 
 struct HostState {
-    listeners: HashMap<u64, TcpListener>,
+    listeners: HashMap<u64, Rc<TcpListener>>,
     connects: HashMap<u64, ConnFut>,
     streams: HashMap<u64, StreamObj>,
+    /// streams accepted by background accept tasks, not yet moved into `streams`
+    inbox: Rc<RefCell<Vec<(u64, TcpStream)>>>,
+    /// completions of background accepts: [step, host, sid, result]
+    bg_log: Rc<RefCell<Vec<Value>>>,
+    step_no: Rc<RefCell<u64>>,
+    host: usize,
 }
 
 fn bytes_of(v: &Value) -> Vec<u8> {
@@ -114,6 +120,10 @@ fn stream_result(cid: u64, r: std::io::Result<TcpStream>, st: &mut HostState, ip
 }
 
 fn exec(cmd: &Value, st: &mut HostState, ips: &[IpAddr], v6: bool, cx: &mut Context<'_>) -> Value {
+    let arrived: Vec<(u64, TcpStream)> = st.inbox.borrow_mut().drain(..).collect();
+    for (sid, s) in arrived {
+        st.streams.insert(sid, StreamObj::Whole(s));
+    }
     let name = cmd[0].as_str().unwrap();
     let id = cmd.get(1).and_then(|x| x.as_u64()).unwrap_or(0);
     match name {
@@ -124,7 +134,7 @@ fn exec(cmd: &Value, st: &mut HostState, ips: &[IpAddr], v6: bool, cx: &mut Cont
             match fut.as_mut().poll(cx) {
                 Poll::Ready(Ok(l)) => {
                     let p = l.local_addr().unwrap().port();
-                    st.listeners.insert(id, l);
+                    st.listeners.insert(id, Rc::new(l));
                     json!(["ok", p])
                 }
                 Poll::Ready(Err(e)) => err(&e),
@@ -200,6 +210,31 @@ fn exec(cmd: &Value, st: &mut HostState, ips: &[IpAddr], v6: bool, cx: &mut Cont
                 Poll::Ready(Err(e)) => err(&e),
                 Poll::Pending => json!("pending"),
             }
+        }
+        "accept_bg" => {
+            // a real parked accept: a task awaits listener.accept() and is woken by the listener's Notify
+            let sid = cmd[2].as_u64().unwrap();
+            let Some(l) = st.listeners.get(&id).cloned() else { return json!("invalid") };
+            let inbox = st.inbox.clone();
+            let log = st.bg_log.clone();
+            let step = st.step_no.clone();
+            let h = st.host;
+            let ips2: Vec<IpAddr> = ips.to_vec();
+            tokio::task::spawn_local(async move {
+                let r = l.accept().await;
+                let k = *step.borrow();
+                match r {
+                    Ok((s, origin)) => {
+                        let lo = canon_addr(s.local_addr().unwrap(), &ips2);
+                        let p = canon_addr(s.peer_addr().unwrap(), &ips2);
+                        let o = canon_addr(origin, &ips2);
+                        inbox.borrow_mut().push((sid, s));
+                        log.borrow_mut().push(json!([k, h, sid, ["ok", lo, p, o]]));
+                    }
+                    Err(e) => log.borrow_mut().push(json!([k, h, sid, err(&e)])),
+                }
+            });
+            json!("none")
         }
         "drop_listener" => match st.listeners.remove(&id) {
             None => json!("invalid"),
@@ -392,20 +427,31 @@ pub fn run_case(case: &Value) -> Value {
         .map(|_| Rc::new(HostCtl { cmds: RefCell::new(VecDeque::new()), notify: Notify::new() }))
         .collect();
     let res_log: Rc<RefCell<Vec<Value>>> = Rc::new(RefCell::new(Vec::new()));
+    let bg_log: Rc<RefCell<Vec<Value>>> = Rc::new(RefCell::new(Vec::new()));
     let step_no = Rc::new(RefCell::new(0u64));
 
     for h in 0..n {
         let ctl = ctls[h].clone();
         let res_log = res_log.clone();
+        let bg_log = bg_log.clone();
         let step_no = step_no.clone();
         let ips2 = ips.clone();
         sim.host(format!("h{h}"), move || {
             let ctl = ctl.clone();
             let res_log = res_log.clone();
+            let bg_log = bg_log.clone();
             let step_no = step_no.clone();
             let ips = ips2.clone();
             async move {
-                let mut st = HostState { listeners: HashMap::new(), connects: HashMap::new(), streams: HashMap::new() };
+                let mut st = HostState {
+                    listeners: HashMap::new(),
+                    connects: HashMap::new(),
+                    streams: HashMap::new(),
+                    inbox: Rc::new(RefCell::new(Vec::new())),
+                    bg_log: bg_log.clone(),
+                    step_no: step_no.clone(),
+                    host: h,
+                };
                 let waker = noop_waker();
                 loop {
                     ctl.notify.notified().await;
@@ -479,5 +525,5 @@ pub fn run_case(case: &Value) -> Value {
         post.push(json!([links_view(&sim, &ips), counts]));
     }
     let _ = turmoil::verif::take_decisions();
-    json!({ "res": *res_log.borrow(), "post": post, "panic": Value::Null })
+    json!({ "res": *res_log.borrow(), "bg": *bg_log.borrow(), "post": post, "panic": Value::Null })
 }
